@@ -10,7 +10,7 @@ def classify(inp, obs, tags):
 
 PROP = dict(
     engines=[dict(
-        name="rawdb", classify=classify,
+        name="rawdb", classify=classify, shrink="ops",
         quick=dict(cases=480, shards=8, profiles=["debug"]),
         thorough=dict(cases=24000, shards=16, profiles=["debug", "release"]),
     )],
